@@ -17,7 +17,7 @@ EXPLANATION = ('Path rule over the CFG of all three instantiations of process_ut
                'dominance of the NUL test over the iterator advance and over appendSlot, non-reachability of any '
                'decode from the zero edge, dataflow of the consumed-character counter into m_numCharinfo/m_numGlyphs. '
                'A path property of one small loop: it holds for every text, encoding and nChars.')
-FLOORS = {'TEXTFLOW': 3, 'NULSTOP': 3, 'COUNTSYNC': 4, 'ONEDECODE': 3, 'ADVANCEBOUND': 3, 'CONTGUARD': 3}
+FLOORS = {'TEXTFLOW': 3, 'NULSTOP': 5, 'COUNTSYNC': 4, 'ONEDECODE': 3, 'ADVANCEBOUND': 3, 'CONTGUARD': 3}
 
 
 def find_decodes(fn):
@@ -289,11 +289,115 @@ def textflow(run, fx):
                          'whose NUL stop and nChars bound are what keeps reads inside the caller\'s buffer' % (q.split('::')[-1], sorted(allowed)))
 
 
+def textexec(run, fx):
+    """C12's statement itself for UTF-16 and UTF-32 (whose decoders only compare code units), by bounded abstract execution
+    (rules/ordint.py) of Segment::read_text with process_utf_data, the iterator, its reference proxy and the codec inlined from their own
+    CFGs; appendSlot, the cmap and the feature copy are stubs that record what they are given.  Every NUL-terminated text of 0..3 units
+    over the unit classes the decoders distinguish, the buffer ending exactly at the NUL, nChars from 0 to two more than the length:
+    no unit beyond the terminating NUL is read; the slots appended carry the ids 0, 1, 2, .. and strictly increasing offsets inside the
+    text; their number is at most nChars, equals the count stored into both segment counters, and -- for well-formed text -- is exactly
+    min(nChars, characters before the NUL) with the right code points and offsets."""
+    import itertools
+    from . import ordint as O
+    rt = fx.one('graphite2::Segment::read_text')
+    PG = 'graphite2::Segment::'
+    grec = fx.record('graphite2::Segment')
+    encs = {16: (2, [0x41, 0xD7FF, 0xD800, 0xDBFF, 0xDC00, 0xE000]), 32: (4, [0x41, 0xD800, 0x10FFFF, 0x110000])}
+
+    def parse(w, units):
+        """well-formed?  [(code point, offset)]"""
+        out, i = [], 0
+        while i < len(units):
+            u = units[i]
+            if w == 32:
+                if u >= 0x110000:
+                    return None
+                out.append((u, i))
+                i += 1
+            elif u < 0xD800 or u > 0xDFFF:
+                out.append((u, i))
+                i += 1
+            elif u <= 0xDBFF and i + 1 < len(units) and 0xDC00 <= units[i + 1] <= 0xDFFF:
+                out.append((0x10000 + ((u - 0xD800) << 10) + (units[i + 1] - 0xDC00), i))
+                i += 2
+            else:
+                return None
+        return out
+    for w, (encv, reps) in encs.items():
+        inst = 'gr_make_seg consumes exactly the text (UTF-%d)' % w
+        cases, prob = 0, None
+        try:
+            for n in range(0, 4):
+                for units in itertools.product(reps, repeat=n):
+                    for nchars in range(0, n + 3):
+                        vec = O.Vec([O.Lz([u]) for u in units] + [O.Lz([0])])
+                        seg = O.Rec()
+                        for f in grec['fields']:
+                            seg[PG + f['n']] = None
+                        seg[PG + 'm_charinfo'] = O.It(O.Vec([O.Rec() for _ in range(8)]), 0)
+                        calls = []
+
+                        def append(it_, f_, e_, obj, args):
+                            calls.append([it_.rv(a) for a in args])
+                            return None
+                        nat = {'graphite2::Segment::appendSlot': append,
+                               'graphite2::Segment::addFeatures': lambda *a: 0,
+                               'graphite2::Face::cmap': lambda it_, f_, e_, obj, args: O.Rec(),
+                               'graphite2::Cmap::operator[]': lambda *a: 7,
+                               'graphite2::Face::findPseudo': lambda *a: 0,
+                               'abs': lambda i_, f_, e_, o_, a_: abs(i_.rv(a_[0]))}
+                        it = O.Interp(fx, natives=nat)
+                        it.lz_arith_ok = True
+                        it.MAX_STEPS = 8000
+                        desc = 'UTF-%d text [%s] 0000, nChars %d' % (w, ' '.join('%04X' % u for u in units), nchars)
+                        try:
+                            it.call(rt, seg, [O.Ptr(O.Rec()), O.Ptr(O.Rec()), encv, O.It(vec, 0), nchars])
+                        except O.Violation as v:
+                            prob = '%s: %s (%s) -- a code unit beyond the terminating NUL is read' % (desc, v.what, v.loc)
+                            break
+                        cases += 1
+                        k = len(calls)
+                        ids = [c_[0] for c_ in calls]
+                        offs = [c_[4] for c_ in calls]
+                        if ids != list(range(k)):
+                            prob = '%s: slots appended with ids %s, expected 0..%d in order' % (desc, ids, k - 1)
+                            break
+                        if k > nchars:
+                            prob = '%s: %d characters appended, more than nChars' % (desc, k)
+                            break
+                        if not all(isinstance(o, int) for o in offs) or any(b <= a for a, b in zip(offs, offs[1:])) or (offs and (offs[0] != 0 or offs[-1] >= max(n, 1))):
+                            prob = '%s: code-unit offsets %s are not strictly increasing inside the text' % (desc, offs)
+                            break
+                        if seg[PG + 'm_numCharinfo'] != k or seg[PG + 'm_numGlyphs'] != k:
+                            prob = '%s: %d character(s) appended but the segment counts are set to %r / %r' % (desc, k, seg[PG + 'm_numCharinfo'], seg[PG + 'm_numGlyphs'])
+                            break
+                        wf = parse(w, list(units))
+                        if wf is not None:
+                            want = wf[:nchars]
+                            got = [((c_[1].v if isinstance(c_[1], O.Lz) else c_[1]), c_[4]) for c_ in calls]
+                            if got != want:
+                                prob = '%s: well-formed text, expected the characters %s (code point, offset), the loop appended %s' % (desc, [('%X' % a, b) for a, b in want], [(('%X' % a) if isinstance(a, int) else a, b) for a, b in got])
+                                break
+                    if prob:
+                        break
+                if prob:
+                    break
+        except AnalysisBroken as ex:
+            run.broken('NULSTOP', inst, str(ex), rt.where())
+            continue
+        if prob:
+            run.violated('NULSTOP', inst, rt.where(), prob)
+        else:
+            run.held('NULSTOP', inst, rt.where(), '%d abstract executions: NUL-terminated texts of 0..3 units x nChars 0..len+2' % cases)
+
+
 def run(run):
     fx = run.facts('Q0')
-    nulstop(run, fx)
-    countsync(run, fx)
-    textflow(run, fx)
+    for name_, f_ in (('NULSTOP', nulstop), ('COUNTSYNC', countsync), ('TEXTFLOW', textflow), ('NULSTOP', textexec)):
+        try:
+            f_(run, fx)
+        except AnalysisBroken as ex:          # one rule not recognising a new shape must not keep the others from deciding
+            run.broken(name_, 'engine', str(ex))
     from . import c11
     c11.advancebound(run, fx)      # the iterator must not step over a unit it did not vet (the terminating NUL)
     c11.contguard(run, fx)
